@@ -71,7 +71,7 @@ def jobs(tier, seed):
                       '  %s(&P, m, mi);' % UNDO + CANARY + '}\n')
             out.append(Job('undo_move/%s/%s' % (cname, part), PTUS, [UNDO], h, 'h_undo', contracts={UNDO: PRE_UNDO + ens}, enforce=UNDO, pre_text=HGHOST + GHOST + MOVE_CLASS + CAPT,
                            unwindset=loops_unwind([('Position__remove_piece', 11), ('Position__move_piece', 11)]), timeout=2400, flags=['--slice-formula'],
-                           canary=(part == 'state'), backend=('cadical' if part == 'lists' else 'minisat'), route='closed-by-complete-unwinding(11); piece mutators inlined',
+                           canary=(part == 'state'), backend=('cadical' if part == 'lists' else 'minisat'), tier=('thorough' if part == 'lists' else 'quick'), route='closed-by-complete-unwinding(11); piece mutators inlined',
                            note='undo_move restores the abstract state of the position before the move; move class: %s; part: %s' % (cname, part), **common))
     h = ND + ('void h_dn(void) { struct Position P = nondet_Position(); G_SQ = nondet_u32(); G_PC = nondet_u32(); G_I = nondet_int(); G_J = nondet_int(); __CPROVER_assume(G_PC >= 1 && G_PC <= 12); sp_of(&P, &G_P0);\n' + HSET + '  %s(&P);' % DONULL + CANARY + '}\n')
     out.append(Job('null/do_null_move', PTUS, [DONULL], h, 'h_dn', contracts={DONULL: C_DONULL}, enforce=DONULL, pre_text=HGHOST + GHOST + CAPT, timeout=1200,
